@@ -7,7 +7,25 @@
    the other (each paired with the lag value the caller would attach if the commit is appended), with minimum
    distance md (seconds).  [readout r] is what getConsumerTopicList returns for the partition: n entries starting at
    the ring pointer.  [window b cs] = b unfilled entries followed by the commits cs; [asc cs] = log positions
-   strictly increasing.  Every theorem holds for all n (n = 0 included unless stated), all md, all lists. *)
+   strictly increasing.  Every theorem holds for all n (n = 0 included unless stated), all md, all lists.
+
+   How the three sentences of the property are stated here.
+   Sentence 1 ("exactly the most recent commits ... strictly increasing ... newest last, whatever the arrival order") is
+   stated for ALL sequences and ALL minimum distances as: shape (C02_window_shape), newest last
+   (C02_window_newest_last), every stored entry is made of arrived commits (C02_stored_are_arrived: offset and position
+   of one arrived commit, timestamp of an arrived commit not later in the log), and the complete description
+   C02_window_is_rule_fold (the window is the fold of the one-arrival rule).  "Exactly the N most recent" in the sense
+   of top-N of the set of arrivals is C02_window_topN and needs the conditions of sentence 3, because of sentence 2:
+   a merged commit occupies its predecessor's slot, so two arrivals share one slot.
+   Sentence 2, INTERPRETATION (recorded deviation, design_notes/C02.md): "closer in time to its predecessor than the
+   configured minimum distance" is read the way the code computes it, as the SIGNED difference
+   new.timestamp - previous.timestamp < 1000 * min-distance (C02_merge_test_meaning).  A commit later in the log with an
+   EARLIER timestamp than its stored predecessor therefore counts as closer than every distance >= 0, the disabled
+   distance 0 included, and replaces it (C02_closer_is_signed_difference, witness C02_ex_negative_gap_merges_at_distance_0,
+   reproduced on the real code).  Under the reading |difference| < distance the code would deviate on exactly those
+   inputs; the property's third sentence carries "timestamps that do not decrease along the log" as a condition, which is
+   what excludes them.  The check's Python oracle accepts both outcomes on such inputs.
+   Sentence 3 is C02_window_topN / C02_window_arrival_independent. *)
 From Coq Require Import ZArith List Sorted Lia.
 From Burrow Require Import Int64 Eval Ring RingProofs.
 Import ListNotations.
@@ -47,6 +65,39 @@ Theorem C02_window_newest_last :
 Proof. exact run_newest_last. Qed.
 Print Assumptions C02_window_newest_last.
 
+(* stored ⊆ arrived, for every minimum distance: the offset and log position of every stored entry are those of one
+   arrived commit; its timestamp is that of an arrived commit not later in the log (the same commit unless it was
+   merged into an older one: C02_merge_spec says the merged slot carries the new commit's offset and position and the
+   predecessor's timestamp) *)
+Theorem C02_stored_are_arrived :
+  forall md n (l : list (commit * Z)) k,
+    In (Some k) (readout (ring_run md n l)) ->
+    (exists cl, In cl l /\ cm_offset (fst cl) = co_offset k /\ cm_order (fst cl) = co_order k) /\
+    (exists cl, In cl l /\ cm_ts (fst cl) = co_ts k /\ cm_order (fst cl) <= co_order k).
+Proof. exact run_stored_arrived. Qed.
+Print Assumptions C02_stored_are_arrived.
+
+(* sentence 1 as far as it holds for all sequences, in one statement *)
+Theorem C02_first_sentence_all_sequences :
+  forall md n (l : list (commit * Z)),
+    exists b cs, readout (ring_run md n l) = repeat None b ++ map Some cs /\
+                 (b + length cs = n)%nat /\
+                 StronglySorted Z.lt (map co_order cs) /\
+                 forall k, In k cs -> made_of_arrivals l k.
+Proof. exact run_window_shape_arrived. Qed.
+Print Assumptions C02_first_sentence_all_sequences.
+
+(* complete description for every minimum distance: the window is the fold over the arrivals of [abs_step], the
+   one-arrival rule on the sorted list of stored commits (RingProofs.v: split at the commit's log position; position
+   already stored => nothing; stored predecessor and [merges] => replace it keeping its timestamp; else a free slot,
+   else the oldest leaves, else — older than a full window — nothing).  C02_merge_spec / C02_no_merge_spec /
+   C02_duplicate_ignored below are that rule read off the window. *)
+Theorem C02_window_is_rule_fold :
+  forall md n (l : list (commit * Z)),
+    readout (ring_run md n l) = window (snd (abs_run md n l)) (rev (fst (abs_run md n l))).
+Proof. exact run_is_rule_fold. Qed.
+Print Assumptions C02_window_is_rule_fold.
+
 (* ---- minimum distance ---- *)
 (* the test of mergeFrequentCommitIntoPrevious in mathematical terms (timestamps in ms, |t| < 2^62) *)
 Theorem C02_merge_test_meaning :
@@ -55,6 +106,23 @@ Theorem C02_merge_test_meaning :
     (merges md pv c = true <-> co_order pv < cm_order c /\ cm_ts c - co_ts pv < 1000 * md).
 Proof. exact merges_spec. Qed.
 Print Assumptions C02_merge_test_meaning.
+
+(* ... hence SIGNED: a commit later in the log but earlier in time than its predecessor is "closer" than every
+   distance >= 0, distance 0 (merging disabled) included.  This is the code's reading of the property's second sentence
+   (see the header); it is why sentence 3 needs non-decreasing timestamps. *)
+Theorem C02_closer_is_signed_difference :
+  forall md pv c,
+    co_order pv < cm_order c -> cm_ts c < co_ts pv -> in_i64 (cm_ts c - co_ts pv) -> 0 <= md -> in_i64 (md * 1000) ->
+    merges md pv c = true.
+Proof. exact merges_negative_gap. Qed.
+Print Assumptions C02_closer_is_signed_difference.
+
+(* the witness, as run on the real code (N = 3, min-distance 0): position 10 at 1 950 000 ms, then position 20 at
+   1 940 000 ms => one slot holding (offset of the second, position 20, timestamp of the first) *)
+Example C02_ex_negative_gap_merges_at_distance_0 :
+  readout (ring_run 0 3 [(mkCommit 10 10 1950000, 90); (mkCommit 20 20 1940000, 80)]) =
+  [None; None; Some (mkCoff 20 20 1950000 (Some 80))].
+Proof. vm_compute. reflexivity. Qed.
 
 (* stored commits lo ++ pv :: hi, pv the one just before c in the log, c closer to pv than the minimum distance:
    pv's entry takes c's offset and log position and keeps pv's timestamp; nothing else changes, no slot is used *)
@@ -136,7 +204,8 @@ Theorem C02_window_arrival_independent :
 Proof. exact run_arrival_independent. Qed.
 Print Assumptions C02_window_arrival_independent.
 
-(* ---- each side condition is needed (witnesses by computation) ---- *)
+(* ---- each side condition of sentence 3 is needed (witnesses by computation).  The second one is the signed-difference
+        reading of sentence 2 at work (C02_closer_is_signed_difference). ---- *)
 Theorem C02_topN_needs_min_distance_0_refuted :
   exists md n l1 l2,
     0 < md /\ ts_monotone (map fst l1) /\ ts_span_ok (map fst l1) /\ order_functional (map fst l1) /\
@@ -282,3 +351,32 @@ Proof. exact ex_arrivals_ooo. Qed.
 Example C02_ex_arrivals_reset :
   wf_hist ex_reset /\ arrivals ex_cfg [1] ex_reset 1 1 1 0 = [(mkCommit 60 2 100000, 40)].
 Proof. exact ex_arrivals_reset. Qed.
+
+(* ---- the same provenance with a spec side that does not replay the model ----
+   [arrivals] above evaluates the drop and purge conditions on the model state.  [h_arrivals cf cls h c g t p]
+   (StorageWindows.v) is a recursion over the request list alone: configuration, cluster set and history are its only
+   inputs ([reach_h]: cluster configured, timestamp not too old for the request's clock, group accepted, a broker offset
+   recorded earlier in h for that partition; [resets_h]: DeleteTopic / DeleteGroup / a FetchConsumer at which the
+   group's lastCommit — itself computed by the same recursion, [h_ginfo] — is expired).  It computes exactly the model's
+   arrival lists, so every stored ring is ring_run over a function of (cf, cls, h). *)
+Theorem C02_storage_arrivals_from_history :
+  forall cf cls h st reps c g,
+  (1 <= cf_intervals cf)%nat -> wf_hist h ->
+  run cf (init_state cls) h = Some (st, reps) ->
+  ginfo st c g = h_ginfo cf cls h c g /\
+  forall t p, 0 <= p -> arrivals cf cls h c g t p = h_arrivals cf cls h c g t p.
+Proof. exact hist_sim_correct. Qed.
+Print Assumptions C02_storage_arrivals_from_history.
+
+Theorem C02_storage_ring_of_history :
+  forall cf cls h st reps c g t p,
+  (1 <= cf_intervals cf)%nat -> wf_hist h -> 0 <= p ->
+  run cf (init_state cls) h = Some (st, reps) ->
+  ring_of cf st c g t p = ring_run (cf_min_distance cf) (cf_intervals cf) (h_arrivals cf cls h c g t p).
+Proof. exact ring_of_history. Qed.
+Print Assumptions C02_storage_ring_of_history.
+
+Example C02_ex_h_arrivals_reset :
+  h_arrivals ex_cfg [1] ex_reset 1 1 1 0 = [(mkCommit 60 2 100000, 40)] /\
+  h_ginfo ex_cfg [1] ex_reset 1 1 = Some (100000, [1]).
+Proof. exact ex_h_arrivals_reset. Qed.
